@@ -185,8 +185,16 @@ func solveOne(o *Obligation, file string, opts solveOpts) {
 		o.Output = strings.Join(outs, "\n")
 		return
 	}
+	nerr := 0
+	for _, r := range all {
+		if r.verdict == "error" {
+			nerr++
+		}
+	}
 	if bad != "" {
 		o.Result = bad
+	} else if nerr == len(all) {
+		o.Result = "solver-error"
 	} else {
 		o.Result = "unknown"
 	}
